@@ -592,6 +592,7 @@ func (e *Exec) builtin(fr *frame, b *ssa.Builtin, cc *ssa.CallCommon, args []Val
 		}
 		return c64(n)
 	case "delete":
+		e.guardMap(cc.Args[0], true)
 		m := args[0].(*MapObj)
 		if m != nil {
 			e.mapDelete(m, args[1])
